@@ -182,6 +182,9 @@ def _bivariate(spec, ctx, g, rng):
     fam = str(rng.choice(biv.FAMILIES))
     th = float(arch.theta_from_tau(fam, rng.uniform(0.2, 0.7)))
     X = samplers.SAMPLERS[fam](th, 150, rng)
+    # rows on and next to the boundary of the unit square: an in-place "sanitising" of the input
+    # (clipping, replacing 0/1) only shows on such values
+    X[:6] = [[0.0, 0.3], [1.0, 0.7], [0.4, 0.0], [0.6, 1.0], [1e-12, 0.5], [0.5, 1 - 1e-12]]
     model = None
     for cname, A in variants(X, rng).items():
         m = biv.cls(fam)()
